@@ -80,6 +80,16 @@ CYCLIC = [
 ]
 
 
+# array views stored where the array they are taken from can reach them again (same local group; object fields over
+# a self-array): every view type must report its edge to the underlying array to the collector
+for _v in ("std.reverse(%s)", "%s[1:]", "%s[::2]", "std.repeat(%s, 2)", "std.map(function(x) x, %s)", "std.filter(function(x) true, %s)",
+           "(%s + [3])", "std.slice(%s, 0, null, 1)", "std.mapWithIndex(function(i, x) x, %s)", "std.flattenArrays([%s])", "std.sort(%s)",
+           "[x for x in %s]", "std.reverse(std.reverse(%s))", "std.objectValues({ a: %s })"):
+    CYCLIC.append("local base = [1 + 1, 2], v = %s; v" % (_v % "base"))
+    CYCLIC.append("{ n: 1, items: [self.n, 2], back: %s }" % (_v % "self.items"))
+    CYCLIC.append("local o = { items: [o.n + 1], n: 1, view: %s, again: self.view }; std.length(o.again)" % (_v % "o.items"))
+
+
 def gauges(rec):
     g = rec.get("gc")
     return None if g is None else (g["after"], g["pool_after"])
